@@ -191,7 +191,31 @@ def run(pid, tier, seed, replay=None):
             rep.sample({"script": scripts[0].splitlines()[:25]})
         if verdicts:
             rep.sample({"verdict": {k: verdicts[0][k] for k in ("id", "why", "viols")}})
+        if pid == "C01" and not replay:
+            # the inotify objects of C01
+            import check_c20
+            check_c20.run_subset(tier, seed, sc, rep)
         if pid == "C15" and not replay:
+            # the pipe fallback of iv_event_raw (eventfd missing) under bursts, and splice missing
+            import mtcheck
+            import random as _r
+            rr = _r.Random(seed + 41)
+            extra = []
+            for name in ("burst", "burst-owner", "in-handler"):
+                body = mtcheck.raw_scenarios()[name]
+                for mode in ("pipe", "efd"):
+                    for m in ("epoll", "poll"):
+                        for j in range(2 if tier == "quick" else 20):
+                            extra.append(mtcheck.mk("C15p.%s.%s.%s.%d" % (name, mode, m, j), body, m, det=0,
+                                                    seed=rr.randint(1, 1 << 30), faults=mtcheck.RAW_MODES[mode]))
+            tf3 = corerun.run_scripts(exe, extra, sc, tag="rawfb")
+            v3, nev3 = vlib.validate_traces(tf3, sc)
+            i3 = corerun.script_index(extra)
+            for v in v3:
+                for r in sorted(set(v["viols"])):
+                    if r.split(":")[0] in ("C09", "C07") or r.endswith(":crash"):
+                        rep.violation("C15:fallback-eventfd/" + r, vlib.save_replay_text(pid, i3[v["id"]]), "script %s" % v["id"])
+            rep.add(raw_fallback_scripts=len(extra), raw_fallback_events=nev3)
             # splice missing: the read/write fallback of iv_fd_pump
             import check_c17
             check_c17.run_fallback(tier, seed, sc, rep)
